@@ -3095,6 +3095,31 @@ def _rule7(ctx, rep):
             raise AnalysisError('no front-end caller of dawgie.db.search().find found')
 
 
+def _rule8(ctx, rep):
+    """every search reads the catalogue as it is now (added after seeded change C17-8: the shelve backend cached the
+    name -> id resolution with functools.lru_cache; names registered after the first search never matched again)"""
+    from . import shared
+
+    prog, cg = ctx.prog, ctx.cg
+    with rep.rule(
+        'R-C17-8',
+        'the search path keeps nothing between calls: no function of the shelve / post search modules reached from find / facet is memoised (decorator), rebinds a global or stores into a module-level or default-argument container',
+        floor=4,
+        breaks='a later search answers from what an earlier one saw: entries written in between are missing from items, total and every page',
+    ) as r:
+        for modname in ('dawgie.db.shelve.search', 'dawgie.db.post.search'):
+            roots = [q for q in prog.funcs if q.startswith(modname + '.') and q.rsplit('.', 1)[-1] in ('find', 'facet', '_find')]
+            if not roots:
+                raise AnalysisError(f'{modname}: find / facet not found')
+            path = sorted(q for q in cg.reachable(roots, kinds={'direct'}) if q.startswith(modname + '.') and q in prog.funcs)
+            for q in path:
+                f = prog.funcs[q]
+                rep.analysed(f)
+                r.instance()
+                probs = shared.state_kept_by(prog, f)
+                r.check(not probs, f'{q}:keeps-nothing', where(f), 'no state that outlives the call', f'{q}: ' + '; '.join(probs) + ': the catalogue is not read again by the next search')
+
+
 def check(ctx):
     rep = Report(
         PID,
@@ -3131,6 +3156,7 @@ def check(ctx):
     _rule5(ctx, rep)
     _rule6(ctx, rep)
     _rule7(ctx, rep)
+    _rule8(ctx, rep)
     return rep
 
 
@@ -3140,6 +3166,7 @@ _AR, _AC = 'SearchImplementation.__add_runids', 'SearchImplementation.__args_n_c
 
 # ``old`` texts that only exist after pending fixes C17-1..4 are skipped automatically on the unrepaired tree
 VARIANTS = [
+    V('shelve search memoises its key selection', 'B', 'db/shelve/search.py', None, 'def _subset(', 'import functools\n\n\n@functools.lru_cache(maxsize=64)\ndef _subset(', 'R-C17-8'),
     V('search end point sorts the page as text', 'B', 'fe/api/database.py', 'search', 'return build_return_object(results._asdict())', 'results = results._replace(items=sorted(results.items, key=str.casefold))\n    return build_return_object(results._asdict())', 'R-C17-7'),
     V('post range uses BETWEEN', 'B', 'db/post/search.py', None, "_RANGE = 'run_ID >= %s and run_ID < %s'", "_RANGE = 'run_ID BETWEEN %s AND %s'", 'R-C17-6'),
     V('post range upper case AND', 'N', 'db/post/search.py', None, "_RANGE = 'run_ID >= %s and run_ID < %s'", "_RANGE = 'run_ID >= %s AND run_ID < %s'", None),
